@@ -130,7 +130,7 @@ pub fn spec(id: &str) -> Option<HistorySpec> {
                 thorough_cases: 40_000,
                 thorough_max_ops: 300,
                 termination: false,
-            rule: "generated histories with iterators/snapshots pinning old versions across compactions; any read failing on a missing file is a violation; before every close, after every reopen and at the end everything is released, one memtable flush gives the database its reclamation opportunity, background work quiesces and the directory listing must be exactly CURRENT, the current manifest, the active WAL and the tables of the current version. Non-trivial = a version was still pinned when the check started, or a trivial move happened in the case; distinct by case hash",
+            rule: "generated histories with iterators/snapshots pinning old versions across compactions; any read failing on a missing file is a violation; before every close, after every reopen and at the end everything is released, one memtable flush gives the database its reclamation opportunity, background work quiesces and the directory listing must be exactly CURRENT, the current manifest, the active WAL and the tables of the current version. Second part (crash images, C02's engine): every journal prefix of generated write workloads is recovered; after recovery and quiescence the directory must again be exact (orphan tables, temp files and superseded manifests/WALs left by the crash are reclaimed), and if a recovery fails but succeeds once the WAL/table files removed before the crash are put back, a file that crash recovery still needed had been deleted. Non-trivial = a version was still pinned when the check started, or a trivial move happened in the case (crash part: crash point strictly inside an API call or background work); distinct by case hash / (workload hash, k)",
             })
         }
         "C09" => {
